@@ -55,7 +55,7 @@ type KV struct {
 
 // WOp is one operation inside a physical write.
 type WOp struct {
-	Del bool
+	Del  bool
 	K, V []byte
 }
 
@@ -74,11 +74,11 @@ type Store struct {
 	LogWrites bool
 	Log       [][]WOp // physical writes in order (only when LogWrites)
 
-	NCalls int          // number of fault-eligible calls made so far
-	FailAt map[int]bool // call indices (0-based, in NCalls order) that fail with ErrInjected
-	Trace  []Call       // filled when TraceCalls
+	NCalls     int          // number of fault-eligible calls made so far
+	FailAt     map[int]bool // call indices (0-based, in NCalls order) that fail with ErrInjected
+	Trace      []Call       // filled when TraceCalls
 	TraceCalls bool
-	Counts [nKinds]int
+	Counts     [nKinds]int
 
 	// Before, if set, is called before every storage call (scheduling point).
 	Before func(kind CallKind, key []byte)
@@ -341,7 +341,7 @@ func (it *iterator) Value() []byte {
 func (it *iterator) Error() error { return it.err }
 func (it *iterator) Close() error { it.closed = true; return nil }
 
-func (s *Store) NewBatch() corestore.Batch           { return &batch{s: s, ops: []WOp{}} }
+func (s *Store) NewBatch() corestore.Batch            { return &batch{s: s, ops: []WOp{}} }
 func (s *Store) NewBatchWithSize(int) corestore.Batch { return &batch{s: s, ops: []WOp{}} }
 
 type batch struct {
